@@ -39,7 +39,14 @@ pub type ParseResult<T> = Result<T, ParserError>;
 pub struct Parser {
     lexer: Lexer,
     current_token: Token,
+    /// Height of the expression tree being built (see [`MAX_EXPRESSION_DEPTH`]).
+    depth: usize,
 }
+
+/// Binder, optimizer and evaluator walk expression trees recursively on pool threads with a
+/// fixed stack: an expression nested deeper than this is refused by the parser instead of
+/// overflowing the stack (which would kill the whole process) later on.
+const MAX_EXPRESSION_DEPTH: usize = 256;
 
 impl Parser {
     pub fn new(sql: &str) -> Self {
@@ -48,6 +55,7 @@ impl Parser {
         Parser {
             lexer,
             current_token,
+            depth: 0,
         }
     }
 
@@ -88,6 +96,14 @@ impl Parser {
     /// Obtains the expression binding power using a Pratt Parsing approach.
     /// I recommend this read on Pratt Parsing: https://matklad.github.io/2020/04/13/simple-but-powerful-pratt-parsing.html
     fn parse_expr_bp(&mut self, min_bp: u8) -> ParseResult<Expr> {
+        let entry_depth = self.depth;
+        let result = self.parse_expr_bp_bounded(min_bp);
+        self.depth = entry_depth;
+        result
+    }
+
+    fn parse_expr_bp_bounded(&mut self, min_bp: u8) -> ParseResult<Expr> {
+        self.enter_expression_level()?;
         let mut lhs = self.parse_prefix()?;
 
         while let Some((l_bp, r_bp)) = self.infix_binding_power() {
@@ -95,10 +111,22 @@ impl Parser {
                 break;
             }
 
+            // every chained operator makes the (left-deep) tree one level higher
+            self.enter_expression_level()?;
             lhs = self.parse_infix(lhs, r_bp)?;
         }
 
         Ok(lhs)
+    }
+
+    fn enter_expression_level(&mut self) -> ParseResult<()> {
+        self.depth += 1;
+        if self.depth > MAX_EXPRESSION_DEPTH {
+            return Err(ParserError::InvalidExpression(format!(
+                "expression nested deeper than {MAX_EXPRESSION_DEPTH} levels"
+            )));
+        }
+        Ok(())
     }
 
     /// Given the current token, obtains the parsed prefix of the expression.
